@@ -118,6 +118,7 @@ struct Run {
   int treeEdits = 0, treeReruns = 0;
   int nullBuilds = 0, skippedCommands = 0, descEdits = 0, sourceEdits = 0, failuresInjected = 0, discoveredSeen = 0;
   bool anyMixed = false;
+  bool everFailed = false;
 
   explicit Run(const Json& p) : plan(p) {}
 
@@ -132,7 +133,11 @@ struct Run {
     for (size_t i = from; i < log.size(); i++) o += "  " + log[i] + "\n";
     return o;
   }
-  void viol(const std::string& clause, const std::string& detail) {
+  void viol(const std::string& clauseIn, const std::string& detail) {
+    std::string clause = clauseIn;
+    // the same observation belongs to different properties depending on what the history exercised
+    if (property == "C11" && clause == "C09.2") clause = "C11.2";       // a change to a discovered path did not re-run the command
+    if (property == "C10" && clause == "C08.1" && everFailed) clause = "C10.4";   // no convergence after repair
     bool mine = clause.compare(0, property.size() + 1, property + ".") == 0;
     if (mine) {
       if (verdict) return;
@@ -347,7 +352,8 @@ bool Run::expectedContent(const std::string& path, std::string* out) {
   if (expectVisiting.count(path)) return false;
   expectVisiting.insert(path);
   ToolResult tr;
-  bool ok = expectedCommand(*p, &tr) && !failFlags.count(p->name);
+  // (failure flags are not part of the state a clean build is computed from: they only say what happens if the command runs)
+  bool ok = expectedCommand(*p, &tr);
   expectVisiting.erase(path);
   for (size_t i = 0; i < p->outputs.size(); i++) expectMemo[p->outputs[i]] = {ok, ok ? tr.outputs[i] : std::string()};
   *out = expectMemo[path].second;
@@ -413,7 +419,7 @@ int Run::toolProgram(simos::ProcCtx& c) {
     const std::string& o = cmd->outputs[i];
     if (isVirtualNode(o) || isDirNode(o)) continue;
     std::string full = o[0] == '/' ? o : c.cwd + "/" + o;
-    int rc = simfs::fs().writeFile(full, tr.outputs[i]);
+    int rc = simfs::fs().writeFile(full, mode == "partial" ? std::string("PARTIAL OUTPUT, TOOL DIED\n") : tr.outputs[i]);
     if (rc != 0) {
       simfs::fs().actor = oldActor;
       c.write(2, "cannot write " + o + "\n");
@@ -515,6 +521,7 @@ void Run::opBuild(const Json& op) {
   reachable(roots, &order);
   std::map<std::string, bool> predictRun, predictFail;
   std::set<std::string> soft;   // commands for which a re-run is allowed but not required in this build
+  std::set<std::string> noClaim;   // commands about whose (non-)execution nothing is asserted in this build
   bool exact = true;   // the iff direction is only asserted when the model is exact for this build
   for (const Cmd* c : order) {
     if (c->tool != "shell") {
@@ -527,7 +534,9 @@ void Run::opBuild(const Json& op) {
       const Cmd* p = desc.producer(i);
       if (!p) continue;
       if (predictFail[p->name]) upstreamFailed = true;
-      if (predictRun[p->name]) {
+      if (noClaim.count(p->name)) noClaim.insert(c->name);   // nothing firm can be said downstream of an unjudged command
+      // a virtual node carries no value: its producer running does not by itself re-run consumers
+      if (predictRun[p->name] && !isVirtualNode(i)) {
         // a producer that runs rewrites its outputs: a new timestamp always, new content only sometimes
         // (in checksum-only mode only the content counts: that case is decided per input further down, by
         // comparing what the producer will write with what this command recorded)
@@ -544,7 +553,15 @@ void Run::opBuild(const Json& op) {
     auto rit = recs.find(c->name);
     bool run = false;
     if (rit == recs.end() || !rit->second.ok) run = true;
-    else {
+    else if (c->allowModified) {
+      // documented opt-out: output state changes do not invalidate the result, only missing outputs and definition
+      // changes do; what happens when only inputs changed is not judged
+      Rec& r = rit->second;
+      if (r.defHash != defHashWithNodes(*c)) run = true;
+      for (auto& o : c->outputs)
+        if (!isVirtualNode(o) && !isDirNode(o) && !stateOf(o).exists) run = true;
+      if (!run) noClaim.insert(c->name);
+    } else {
       Rec& r = rit->second;
       if (r.defHash != defHashWithNodes(*c) || c->always || upstreamRan) run = true;
       for (auto& o : c->outputs)
@@ -722,6 +739,7 @@ void Run::opBuild(const Json& op) {
   std::set<std::string> tainted;
   if (!actuallyFailed.empty() || anyPredictedFailure) {
     failuresInjected++;
+    everFailed = true;
     if (ok && !actuallyFailed.empty()) {
       std::string names;
       for (auto& n : actuallyFailed) names += n + " ";
@@ -759,8 +777,18 @@ void Run::opBuild(const Json& op) {
 
   // C08: outputs equal a clean build's
   if (ok) {
+    // outputs of (and downstream of) an allow-modified-outputs command that was legitimately left alone are not judged
+    std::set<std::string> unjudged;
     for (const Cmd* c : order) {
-      if (c->tool != "shell") continue;
+      bool skip = c->allowModified && !ran.count(c->name);
+      for (auto& i : c->inputs) {
+        const Cmd* ip = desc.producer(i);
+        if (ip && unjudged.count(ip->name)) skip = true;
+      }
+      if (skip) unjudged.insert(c->name);
+    }
+    for (const Cmd* c : order) {
+      if (c->tool != "shell" || unjudged.count(c->name)) continue;
       for (auto& o : c->outputs) {
         if (isVirtualNode(o) || isDirNode(o)) continue;
         std::string want, got;
@@ -799,7 +827,9 @@ void Run::opBuild(const Json& op) {
       if (did && ranOk.count(c->name)) softAfterFailure.erase(c->name);
       continue;
     }
+    if (noClaim.count(c->name)) continue;
     if (want && !did && !predictFail[c->name] && actuallyFailed.empty() && !anyPredictedFailure) {
+      // (a hard prediction: soft only ever relaxes the "must not run" direction)
       std::string why = !recs.count(c->name) ? "never ran successfully" : recs[c->name].defHash != defHashWithNodes(*c) ? "its definition (or the type/filters of one of its input nodes) changed" : "an input or output changed";
       viol(hasDir ? "C12.1" : "C09.2", "command " + c->name + " was not re-executed in build " + std::to_string(buildNo) + " although " + why);
     }
@@ -1064,6 +1094,8 @@ struct Gen {
           if (rng.chance(750)) sources[x[0] == '/' ? x.substr(strlen(kWork) + 1) : x] = freshContent("extra", {});
         }
       }
+      if ((property == "C09" || property == "C10") && rng.chance(90)) c.allowModified = true;
+      if (rng.chance(150)) c.outputs.insert(c.outputs.begin() + (rng.chance(600) ? 0 : (long)c.outputs.size()), "<v" + std::to_string(i) + ">");
       if (rng.chance(200)) c.env.push_back({"MODE", "m" + std::to_string(rng.below(5))});
       if (rng.chance(100)) c.env.push_back({"OTHER", "o" + std::to_string(rng.below(5))});
       if (rng.chance(120)) c.inheritEnv = false;
@@ -1076,9 +1108,22 @@ struct Gen {
       }
       desc.cmds.push_back(c);
     }
+    if (useDeps && rng.chance(property == "C11" ? 450 : 150) && !srcs.empty()) {
+      // a command with nothing but a virtual output (a "lint" step): its build value never changes
+      Cmd l;
+      l.name = "L0";
+      l.salt = rng.below(1000);
+      l.inputs = {srcs[rng.below(srcs.size())]};
+      l.outputs = {"<lint>"};
+      l.deps = "lint.d";
+      l.style = rng.chance(500) ? "makefile" : "dependency-info";
+      desc.cmds.push_back(l);
+      products.push_back("<lint>");
+    }
     // targets: the default target groups a few products through a phony command
     std::vector<std::string> top;
     for (int k = 0; k < 2 && !products.empty(); k++) top.push_back(products[products.size() - 1 - rng.below(std::min<size_t>(products.size(), 3))]);
+    if (desc.byName("L0")) top.push_back("<lint>");
     std::sort(top.begin(), top.end());
     top.erase(std::unique(top.begin(), top.end()), top.end());
     if (rng.chance(500)) {
@@ -1247,7 +1292,7 @@ struct Gen {
       if (desc.cmds[i].tool == "shell") shells.push_back(i);
     if (shells.empty()) return "none";
     Cmd& c = desc.cmds[shells[rng.below(shells.size())]];
-    unsigned k = (unsigned)rng.below(14);
+    unsigned k = (unsigned)rng.below(15);
     switch (k) {
     case 0: c.salt++; return "arg";
     case 1:
@@ -1286,7 +1331,25 @@ struct Gen {
     case 11:
       if (!c.deps.empty()) { c.deps += "2"; return "deps-path"; }
       return "none";
-    case 12: c.always = !c.always; return "always";
+    case 12: {
+      // rewire: replace one input by another node (same number of inputs)
+      std::vector<std::string> cand;
+      for (auto& s2 : sources)
+        if (s2.first.size() > 2 && s2.first.substr(s2.first.size() - 2) == ".c") cand.push_back(s2.first);
+      // commands are created in dependency order: only products of earlier commands keep the graph acyclic
+      for (auto& pc : desc.cmds) {
+        if (&pc == &c) break;
+        if (pc.tool != "shell") continue;
+        for (auto& po : pc.outputs)
+          if (!isVirtualNode(po)) cand.push_back(po);
+      }
+      if (c.inputs.empty() || cand.empty()) return "none";
+      std::string repl = cand[rng.below(cand.size())];
+      if (std::find(c.inputs.begin(), c.inputs.end(), repl) != c.inputs.end()) return "none";
+      c.inputs[rng.below(c.inputs.size())] = repl;
+      return "replace-input";
+    }
+    case 13: c.always = !c.always; return "always";
     default: {
       // add a new command consuming an existing product
       Cmd n;
@@ -1405,6 +1468,17 @@ struct Gen {
             size_t eol = old.find('\n', pos);
             if (rng.chance(850)) inc.push_back(old.substr(pos + 9, eol - pos - 9));
             pos = eol;
+          }
+          if (rng.chance(300)) {
+            // the edited file starts including another existing header
+            std::vector<std::string> hs;
+            for (auto& s2 : sources)
+              if (s2.first != p && s2.first.size() > 2 && s2.first.substr(s2.first.size() - 2) == ".h") hs.push_back(s2.first);
+            if (!hs.empty()) {
+              std::string h = hs[rng.below(hs.size())];
+              // no include cycles: only include "later" names
+              if (h > p && std::find(inc.begin(), inc.end(), h) == inc.end()) inc.push_back(h);
+            }
           }
           std::string content = freshContent("edit", inc);
           sources[p] = content;
